@@ -90,6 +90,7 @@ def world_job(job):
         else:
             scenarios = mod.gen_scenarios(spec, R.stream(seed, "workload"), job["runs"])
         res["build_s"] = time.perf_counter() - t0
+        seen_rules = set()
         for i, sc in enumerate(scenarios):
             hist = mod.execute(w, sc)
             viol, probes = mod.judge(spec, sc, hist)
@@ -114,14 +115,20 @@ def world_job(job):
             if len(res["samples"]) < 1 and sh["nontrivial"] and job.get("want_sample"):
                 res["samples"].append({"scenario": sc, "history": _trim_hist(hist)})
             if viol:
+                # keep exploring the world (a recorded known finding must not end its coverage), but report
+                # each rule at most once per world and stop after three distinct rules
                 for v in viol[:1]:
+                    if v["rule"] in seen_rules:
+                        continue
+                    seen_rules.add(v["rule"])
                     v = dict(v)
                     v["spec"] = spec
                     v["scenario"] = sc
                     v["history"] = hist
                     v["decoy_spec"] = decoy_spec
                     res["violations"].append(v)
-                break   # first failing run of a world stops the world
+                if len(seen_rules) >= 3:
+                    break
     finally:
         w.close()
     res["wall_s"] = time.perf_counter() - t0
@@ -387,22 +394,38 @@ def report_violations(prop_id, mod, seed, args, viols, t0, agg, pre, st=None):
     os.makedirs(os.path.join(VERIF, "out", "replays"), exist_ok=True)
     # group by rule; minimise one representative per rule (at most 3 rules)
     by_rule = {}
+
+    def sig_of(v, spec, sc):
+        s0 = _signature(mod, spec, sc, v["rule"], v.get("op"))
+        if s0 == v["rule"]:
+            s0 = findings.generic_signature(spec, v["rule"], v.get("msg")) or s0
+        return s0
     for v in viols:
-        gk = v["rule"] + ("|" + re.sub(r"\d+", "N", str(v.get("msg")))[:70] if v["rule"] == "world_unbuildable" else "")
+        # group by (rule, shape signature of THIS violation) so that a recorded finding can never hide a
+        # different violation of the same rule
+        s0 = sig_of(v, v["spec"], v.get("scenario"))
+        v["_sig0"] = s0
+        gk = v["rule"] + "|" + s0 + ("|" + re.sub(r"\d+", "N", str(v.get("msg")))[:70] if v["rule"] == "world_unbuildable" else "")
         by_rule.setdefault(gk, []).append(v)
-    for gk, vs in list(by_rule.items())[:4]:
+    groups = sorted(by_rule.items(), key=lambda kv: findings.match(known, prop_id, kv[1][0]["rule"], kv[1][0]["_sig0"]) is not None)
+    for gk, vs in groups[:6]:
         v = vs[0]
         rule = v["rule"]
         spec, sc = v["spec"], v.get("scenario")
+        kf0 = findings.match(known, prop_id, rule, v["_sig0"])
+        if kf0 is not None:
+            key = (prop_id, kf0["signature"])
+            if key not in printed:
+                printed.add(key)
+                print(f"KNOWN-FINDING: property={prop_id} {kf0['description']}")
+            continue
         if not args.no_minimize:
             spec, sc, info = minimize.minimise(prop_id, mod, spec, sc, rule, decoy=v.get("decoy_spec"))
             if v.get("decoy_spec") is not None and info.get("needs_decoy") is False:
                 v["decoy_spec"] = None
         else:
             info = {"minimised": False}
-        sig = mod.signature(spec, sc, rule) if hasattr(mod, "signature") else rule
-        if sig == rule:
-            sig = findings.generic_signature(spec, rule, v.get("msg")) or sig
+        sig = sig_of(v, spec, sc)
         kf = findings.match(known, prop_id, rule, sig)
         if kf is not None:
             key = (prop_id, kf["signature"])
@@ -427,6 +450,15 @@ def report_violations(prop_id, mod, seed, args, viols, t0, agg, pre, st=None):
         agg2 = aggregate([])
     write_evidence(prop_id, mod, seed, args.tier, agg2, t0, st, pre, violations=new)
     return 1 if new else 0
+
+
+def _signature(mod, spec, sc, rule, op_id):
+    if not hasattr(mod, "signature"):
+        return rule
+    try:
+        return mod.signature(spec, sc, rule, op_id)
+    except TypeError:
+        return mod.signature(spec, sc, rule)
 
 
 def _json_default(o):
